@@ -5,6 +5,7 @@ evaluated on it.  Nothing here is counted as proof; a hit only turns `no-failing
 from __future__ import annotations
 
 import itertools
+import re
 import random
 
 from contracts.readback import parse
@@ -59,6 +60,9 @@ def configs(rtf, pl, seed=0, limit=None):
                 bkw["text_format"] = [["b" if (i + j) % 3 == 0 else ("i" if (i + j) % 3 == 1 else "") for j in range(nc)] for i in range(nr)]
                 bkw["text_font_size"] = [[8 + (i % 3) for j in range(nc)] for i in range(nr)]
                 bkw["text_justification"] = [[["l", "c", "r"][(i + j) % 3] for j in range(nc)] for i in range(nr)]
+                bkw["cell_height"] = [[0.15 + 0.05 * (i % 3)] * nc for i in range(nr)]                       # row-level: one value per row
+                bkw["cell_justification"] = [[["l", "c", "r"][i % 3]] * nc for i in range(nr)]
+                bkw["cell_vertical_justification"] = [[["top", "center", "bottom"][(i + j) % 3] for j in range(nc)] for i in range(nr)]
             elif look == "percol":
                 bkw["text_justification"] = [["l", "c", "r"][j % 3] for j in range(nc)]
                 bkw["text_format"] = [["b", "", "i"][j % 3] for j in range(nc)]
@@ -221,8 +225,18 @@ def check_row_offset(doc, rtf_text, parsed):
         for r in p.rows:
             t = tuple(c.text for c in r.cells)
             if k < nr and (pi, t) == rows[k]:
+                ch = at("cell_height", k, orig[0])
+                gm = re.search(r"\\trgaph(-?\d+)", r.raw)
+                if ch is not None and gm and int(gm.group(1)) != int(round(ch * 1440) / 2):
+                    bad.append(f"row {k}: \\trgaph{gm.group(1)}, cell_height at this row says {ch} in")
+                cj = at("cell_justification", k, orig[0])
+                if cj and r.trq is not None and r.trq != cj:
+                    bad.append(f"row {k}: \\trq{r.trq}, cell_justification at this row says {cj}")
                 for jj, c in enumerate(r.cells):
                     j = orig[jj]
+                    va = at("cell_vertical_justification", k, j)
+                    if va in ("top", "center", "bottom") and c.valign is not None and c.valign != va[0]:
+                        bad.append(f"cell (row {k}, col {cols[j]}): \\clvertal{c.valign}, attribute says {va}")
                     fmt = at("text_format", k, j) or ""
                     want_fmt = "".join(ch for ch in "biu s^_".replace(" ", "") if ch in fmt)
                     got_fmt = "".join(ch for ch in "bius^_" if ch in c.fmt)
